@@ -52,7 +52,7 @@ for d in sorted(glob.glob(os.path.join(V, "seeded", "*"))):
     w(f"| {os.path.basename(d)} | {b[:140]} | {rep} | {m.get('history', '')} |")
 w("")
 w("### 11.5 Benign variants (`benign/<prop>-v<k>/`)\n")
-w("Behaviour-preserving refactorings written by sub-agents (five per property, each with a differential test against the unmodified tree). Every variant was applied to `/repo`, **all 19 checks** were run, and it was undone. `silent` = no check raised anything; `flagged` = at least one rule reported it (a false alarm by construction), with the reason it was not generalised.\n")
+w("Behaviour-preserving refactorings written by sub-agents (three rounds: `-v`, `-w`, `-x`; each with a differential test against the unmodified tree). Every variant was applied to a scratch copy of `/repo`'s working tree and **all 20 checks** were run (`tools/par_recheck.py --all-props`; last full re-run after the mutation sweeps, with the helper-inlined view search). `silent` = no check raised anything; `flagged` = at least one rule reported it (a false alarm by construction), with the reason it was not generalised.\n")
 w("| variant | refactoring | outcome |")
 w("|---|---|---|")
 ns = nf = 0
